@@ -35,3 +35,24 @@ Fixpoint seq_run (s : seqr) (ops : list sop) : seqr * list Z :=
   | [] => (s, [])
   | o :: t => let '(s1, r) := seq_step s o in let '(s2, rs) := seq_run s1 t in (s2, r :: rs)
   end.
+
+(* The sequencer is shared: a Packetizer draws one number per packet of a frame and per padding
+   packet (packetizer.go calls NextSequenceNumber in its loops) from the same counter that other
+   callers use directly.  A history with such batches: *)
+Inductive bop := BOne (o : sop) | BTake (n : nat).
+
+Fixpoint seq_take (n : nat) (s : seqr) : seqr * list Z :=
+  match n with
+  | O => (s, [])
+  | S k => let '(s1, v) := seq_next s in let '(s2, vs) := seq_take k s1 in (s2, v :: vs)
+  end.
+
+Fixpoint seq_brun (s : seqr) (l : list bop) : seqr * list (list Z) :=
+  match l with
+  | [] => (s, [])
+  | BOne o :: t => let '(s1, r) := seq_step s o in let '(s2, rs) := seq_brun s1 t in (s2, [r] :: rs)
+  | BTake n :: t => let '(s1, vs) := seq_take n s in let '(s2, rs) := seq_brun s1 t in (s2, vs :: rs)
+  end.
+
+Definition flatten_bops (l : list bop) : list sop :=
+  flat_map (fun b => match b with BOne o => [o] | BTake n => repeat SNext n end) l.
